@@ -60,6 +60,9 @@ mod x86_avx2;
 mod x86_sse2;
 mod x86_sse4_1;
 
+#[cfg(fast_tlsh_verif)]
+pub mod verif;
+
 mod fuzzer;
 
 /// The body outlier value when the difference is the maximum (`0b11`).
